@@ -49,6 +49,11 @@ CHECKS = {
    text="Each generated program is rendered twice from the same AST: canonically and with random trivia in every slot the grammar allows (spaces, tabs, block/line/nested/multi-line/non-ASCII comments containing code-like text, blank lines, CRLF) and random letter case of mnemonics, directives, registers, hex digits, as/from/else, encodings and true/false; segment bytes, the symbol table and the sorted diagnostic messages must be equal.",
    note="The slot catalogue is the renderer's (gen/ast.rs), derived from the grammar; slots where the grammar allows no trivia are never filled.",
    ref="§5 C08"),
+ "C11": dict(
+   technique="proptest over assembling generator programs x bytes-per-line x attribution mode; oracle = reference layout model's (statement, value) -> address-range relation; listing text parsed back (round trip against the image)",
+   text="For generated programs that assemble, the source map's address ranges must equal the reference walk's emission sites, each entry's span must lie inside the renderer-recorded source range of the statement/value that emitted it (or an enclosing macro invocation in listing mode), address lookup must return that entry, and the `.lst` text produced by to_listing, parsed back, must show every source line once and in order, rows whose bytes are the image bytes at the row's address, per-line bytes in emission order and every emitted byte exactly once.",
+   note="In-process (CodegenContext::source_map, io::to_listing); the file naming of `mos build` listings is covered by C10. Lookup and row-address checks are skipped for programs whose segments overlap in target addresses (the source map carries no segment identity).",
+   ref="§5 C11"),
 }
 
 NOT_YET = {
